@@ -2,7 +2,8 @@
 C11 — Python ranges and python_version markers convert into each other exactly.
 Property theorems only (helper lemmas in Proofs/PyConvText.lean, PyConvMarker.lean, PyConvSem.lean,
 PyConvRange.lean, PyConvNorm.lean, PyConvGpc.lean, PyConvPoetry.lean, PyConvLeaf.lean,
-PyConvSplit.lean, PyConvShape.lean, PyConvSplitSem.lean, PyConvSplitSound.lean, PyConvIn.lean).
+PyConvSplit.lean, PyConvShape.lean, PyConvSplitSem.lean, PyConvSplitSound.lean, PyConvIn.lean,
+PyConvAlts.lean, PyConvGpcAlts.lean, PyConvLeafAlts.lean).
 
 Vocabulary.  `EnvPy E X Y Z`: the environment `E` has `python_version = "X.Y"` and
 `python_full_version = "X.Y.Z"` (all of `X Y Z : Nat`, unbounded); `pyV X Y Z` is the version `X.Y.Z`.
@@ -16,6 +17,7 @@ import PoetryVerif.Proofs.PyConvGpc
 import PoetryVerif.Proofs.PyConvPoetry
 import PoetryVerif.Proofs.PyConvLeaf
 import PoetryVerif.Proofs.PyConvIn
+import PoetryVerif.Proofs.PyConvLeafAlts
 import PoetryVerif.Proofs.VRangeOps
 import PoetryVerif.Proofs.MarkerProj
 
@@ -279,6 +281,33 @@ theorem pyConstraint_exact_validate_partial (E : Env) (X Y Z : Nat) (hE : EnvPy 
     (hne : ∀ d, dnf defaultFuel [] m = .ok d → d ≠ .empty)
     (h : gpc m = .ok g) : M.validate E m = .ok (g.allowsPlain (pyV X Y Z)) :=
   gpc_exact_validate E X Y Z hE S m g hg hvars HR hne h
+
+/-- **conjunctions with `in` lists**: every pair contributes its alternatives (one clause for a comparison, one
+`X.Y.*` per listed version for `in`), and the conjunction is printed as all choices of one alternative per pair, in
+order (the expansion of repo fix bb3e413). -/
+theorem normalize_conj_alternatives (pas : List ((String × String) × List String))
+    (h : ∀ x ∈ pas, PairAlts x.1.1 x.1.2 x.2) (alts : List (List String)) :
+    normalizePyConj (pas.map (·.1)) alts =
+      .ok (alts.flatMap (fun ands => (prodAlts (pas.map (·.2))).map (ands ++ ·))) :=
+  normConj_alts pas h alts
+
+example : normalizePyConj [(">=", "3.8"), ("in", "3.8 3.9")] [[]] = .ok [[">=3.8", "3.8.*"], [">=3.8", "3.9.*"]] := by
+  decide
+
+/-- **the one-sided part against `validate`, `in` lists included** (leaf invariant `PyGL E`: coherent, evaluable
+single markers; python ones comparison items of the exact shape or `python_version in "X0.Y0 …"`). -/
+theorem pyConstraint_upper_validate_lists_partial (E : Env) (X Y Z : Nat) (hE : EnvPy E X Y Z)
+    (S : LeafSpec (leafEval E) (PyGL E)) (m : M) (g : VC) (hg : M.Good (PyGL E) m)
+    (h : gpc m = .ok g) (hv : M.validate E m = .ok true) : g.allowsPlain (pyV X Y Z) = true :=
+  gpc_upper_validate_lists E X Y Z hE S m g hg h hv
+
+/-- **exactness against `validate` for python-only markers, `in` lists included** -/
+theorem pyConstraint_exact_validate_lists_partial (E : Env) (X Y Z : Nat) (hE : EnvPy E X Y Z)
+    (S : LeafSpec (leafEval E) (PyGL E)) (m : M) (g : VC) (hg : M.Good (PyGL E) m)
+    (hvars : ∀ n ∈ M.vars m, pyNames.contains n = true) (HR : ReparseNames)
+    (hne : ∀ d, dnf defaultFuel [] m = .ok d → d ≠ .empty)
+    (h : gpc m = .ok g) : M.validate E m = .ok (g.allowsPlain (pyV X Y Z)) :=
+  gpc_exact_validate_lists E X Y Z hE S m g hg hvars HR hne h
 
 /-- the invariant `PyG` on a concrete leaf: `python_version >= "3.8"` on CPython 3.8.1 -/
 example : PyG env381 (.single ⟨"python_version", ">=", "3.8", false, .ver (.single (.rng ⟨some (v [3, 8]), none, true, false⟩))⟩) :=
